@@ -2,9 +2,9 @@ SPECIFICATION MCSpec
 CONSTANTS
   W = 3
   NBins = 2
-  Values <- VS_Q
+  Values <- VS_1
   Freq = 2
-  MaxSteps = 3
+  MaxSteps = 5
   MaxRestarts = 1
   EmitLen = 99
 INVARIANTS ExactlyOnce OwnRecoverable QuirkScope NeverTwice NoNegative
